@@ -419,4 +419,37 @@ theorem region_roundtrip (cfg : Cfg) (sky : ℚ → ℚ) (p : ℕ) (g : Dict) (m
       | dashes o l => exact absurd hok (by simp)
       | marker s => exact absurd hok (by simp)
 
+/-! ### list plumbing -/
+
+theorem forall₂_chain {α β γ δ : Type} {R : α → β → Prop} {S : β → γ → Prop} {T : γ → δ → Prop}
+    {Q : α → δ → Prop} (f : β → β) {as : List α} {bs : List β} {cs : List γ} {ds : List δ}
+    (h1 : List.Forall₂ R as bs) (h2 : List.Forall₂ S (bs.map f) cs) (h3 : List.Forall₂ T cs ds)
+    (hq : ∀ a b c d, a ∈ as → b ∈ bs → R a b → S (f b) c → T c d → Q a d) : List.Forall₂ Q as ds := by
+  induction h1 generalizing cs ds with
+  | nil =>
+    simp only [List.map_nil, List.forall₂_nil_left_iff] at h2
+    subst h2
+    simp only [List.forall₂_nil_left_iff] at h3
+    subst h3
+    exact List.Forall₂.nil
+  | @cons a b as bs hab _ ih =>
+    rw [List.map_cons] at h2
+    cases h2 with
+    | cons hs h2' =>
+      cases h3 with
+      | cons ht h3' =>
+        refine List.Forall₂.cons (hq a b _ _ List.mem_cons_self List.mem_cons_self hab hs ht) ?_
+        exact ih h2' h3' (fun a' b' c' d' ha' hb' =>
+          hq a' b' c' d' (List.mem_cons_of_mem _ ha') (List.mem_cons_of_mem _ hb'))
+
+theorem forall₂_exists_left {α β : Type} {R : α → β → Prop} {as : List α} {bs : List β}
+    (h : List.Forall₂ R as bs) {b : β} (hb : b ∈ bs) : ∃ a, a ∈ as ∧ R a b := by
+  induction h with
+  | nil => simp at hb
+  | @cons a b' as bs hab _ ih =>
+    rcases List.mem_cons.mp hb with rfl | hb'
+    · exact ⟨a, List.mem_cons_self, hab⟩
+    · obtain ⟨a0, ha0, h0⟩ := ih hb'
+      exact ⟨a0, List.mem_cons_of_mem _ ha0, h0⟩
+
 end RegionsVerif.Impl.Ds9
